@@ -71,7 +71,7 @@ where
         )?;
     }
 
-    writeln!(writer, "    let url = \"{action}\";")?;
+    writeln!(writer, "    let url = {:?};", action.as_str())?;
     writeln!(writer, "    helpers::send_soap_request(url, credentials, req).await")?;
     writeln!(writer, "}}")?;
 
@@ -95,7 +95,7 @@ where
     }
     let namespaces = xmlns
         .iter()
-        .map(|(k, v)| format!("\"{k}\" = \"{v}\""))
+        .map(|(k, v)| format!("{k:?} = {v:?}"))
         .collect::<Vec<String>>()
         .join(", ");
 
@@ -118,10 +118,10 @@ where
                 let abbreviation = namespace.abbreviation.as_str();
                 writeln!(
                     writer,
-                    "#[yaserde(prefix = \"{abbreviation}\", rename = \"{xml_name}\")]"
+                    "#[yaserde(prefix = {abbreviation:?}, rename = {xml_name:?})]"
                 )?;
             } else {
-                writeln!(writer, "    #[yaserde(rename = \"{xml_name}\")]")?;
+                writeln!(writer, "    #[yaserde(rename = {xml_name:?})]")?;
             }
 
             // todo: we should check if the "mustUnderstand" == 1 to make the field required
@@ -157,7 +157,7 @@ where
 
     if let Some(namespace) = soap_operation.body.in_namespace.as_ref() {
         let abbreviation = namespace.abbreviation.as_str();
-        writeln!(writer, "#[yaserde(prefix = \"{abbreviation}\", {yaserde_ns_header})]")?;
+        writeln!(writer, "#[yaserde(prefix = {abbreviation:?}, {yaserde_ns_header})]")?;
     } else {
         writeln!(writer, "#[yaserde(rename = \"Envelope\", {yaserde_ns_header})]")?;
     }
@@ -169,11 +169,11 @@ where
         let abbreviation = namespace.abbreviation.as_str();
         writeln!(
             writer,
-            "    #[yaserde(prefix = \"{abbreviation}\", rename = \"{xml_name}\")]"
+            "    #[yaserde(prefix = {abbreviation:?}, rename = {xml_name:?})]"
         )?;
         writeln!(writer, "    pub {body_field_name}: {mod_name}::{body_type},",)?;
     } else {
-        writeln!(writer, "    #[yaserde(rename = \"{xml_name}\")]")?;
+        writeln!(writer, "    #[yaserde(rename = {xml_name:?})]")?;
         writeln!(writer, "    pub {body_field_name}: {body_type},")?;
     }
     writeln!(writer, "}}")?;
